@@ -707,6 +707,12 @@ def taint2(ctx):
                 if st['k'] == 'assign' and st['rv']['k'] == 'binop' and st['rv']['op'] in ('Lt', 'Le', 'Gt', 'Ge'):
                     lv = expr_leaves(b, st['rv']['a']) + expr_leaves(b, st['rv']['b'])
                     cur_reads = [x[1] for x in lv if x[0] == 'place' and mem_loc(x[2]) == CUR and x[1] is not None]
+                    # a helper such as num_bytes_to_end_of_block(&self) reads the cursor at its call point
+                    for x in lv:
+                        if x[0] == 'call' and x[1].node is not None:
+                            hb = ctx.f.bodies[x[1].node]
+                            if not ctx.E.maywrite().get(hb.id) and ('m', CUR) in flow_of(hb).backward({('l', 0)}):
+                                cur_reads.append(x[1].point)
                     has_len = any(x[0] == 'call' and x[1].node is not None and is_getter(ctx.f.bodies[x[1].node]) and ctx.f.bodies[x[1].node].path.startswith('frame::header::Header::') for x in lv)
                     if cur_reads and has_len:
                         guards.append((b.pstart[bi] + si, cur_reads))
